@@ -105,7 +105,7 @@ CHECKS = {
         ref="DESIGN.md section 3 / C14",
     ),
     "C17": dict(
-        text="Generated-input search: programs of the fragment common to all front ends, with user names drawn from the auto-namer's own forms, are built through Q-syntax, text, S-expression and CircuitBuilder method calls; the four circuits must be pairwise == with identical generated text (Q-syntax up to the reference's wrap rule), auto-generated names must be fresh against user names of every kind.",
+        text="Generated-input search: programs of the fragment common to all front ends, with user names drawn from the auto-namer's own forms, are built through Q-syntax, text, S-expression and CircuitBuilder method calls; the four circuits must be pairwise == with identical generated text (Q-syntax up to the reference's wrap rule), auto-generated names must be fresh against user names of every kind.  Second part: general programs (aliases, macros, pulse imports) are built from text, S-expression and every CircuitBuilder/BlockBuilder method with randomly chosen argument forms (names or core objects, evaluated at once or lazily); the three circuits must be ==, generate the same text by value, and the builder circuit must have the reference's meaning and declarations.",
         note=TRUST + "Q-syntax cannot express aliases, macros or parallel loop bodies: outside the fragment.",
         tech="property-based testing: N-way differential between front ends + reference wrap rule + freshness predicate",
         ref="DESIGN.md section 3 / C17",
